@@ -256,7 +256,7 @@ def solve_all(obs, progress=None):
     # configurations again, one query at a time, with a wall-clock limit six times as long.  Skipped when many queries
     # are open (changed code: the answer there is "undecided", not "wait longer").
     left = [ob for ob in todo if ob.status == "unknown" and ob.kind != "canary"]
-    if 0 < len(left) <= 6:
+    if 0 < len(left) <= 6 and not os.environ.get("VF_SELFTEST"):   # (the mutation self-test only asks "does anything turn red")
         slow = [(name, [c.replace("-T:20", "-T:120") for c in cmd]) for name, cmd in ALT_CONFIGS]
         for ob in left:
             for txt, tag in ((ob.text, ""), (getattr(ob, "text_light", None), "[light hypothesis subset] ")):
